@@ -1,9 +1,371 @@
 /-
-  QEModel.C04 — executable model for property C04 (stub; to be filled in).
--/
-import QEModel.Base
-namespace QE.C04
+  QEModel.C04 — executable model of `quantecon/optimize/linprog_simplex.py`
+  (`linprog_simplex`, `_initialize_tableau`, `_set_criterion_row`,
+  `solve_tableau`, `solve_phase_1`, `_pivot_col`, `get_solution`) and of
+  `quantecon/optimize/minmax.py` (`minmax`), on top of the shared pivoting core
+  `QEModel.Pivot` (`_pivoting`, `_lex_min_ratio_test`).
 
-def handle (_toks : List String) : String := "bad-op"
+  Scalar-generic: the theorems of `QEProofs/Properties/C04.lean` read these
+  definitions over an ordered field; the driver runs them at `Rat` (exact
+  reference) and at `Float` (same operation order as the Numba kernels, so the
+  bits coincide).  The three tolerances of `PivOptions` are parameters.
+-/
+import QEModel.Pivot
+namespace QE.C04
+open QE QE.Pivot
+
+variable {α : Type} [Zero α] [One α] [Add α] [Sub α] [Mul α] [Div α] [Neg α] [LT α] [LE α]
+  [DecidableLT α] [DecidableLE α] [BEq α]
+
+/-- `PivOptions(fea_tol, tol_piv, tol_ratio_diff)` -/
+structure Tol (α : Type) where
+  fea : α
+  piv : α
+  diff : α
+
+/-- the linear program  max c·x  s.t.  A_ub x ≤ b_ub, A_eq x = b_eq, x ≥ 0
+    (`n` variables, `m` inequality rows, `k` equality rows) -/
+structure LP (α : Type) where
+  n : Nat
+  m : Nat
+  k : Nat
+  c : Nat → α
+  Aub : Nat → Nat → α
+  bub : Nat → α
+  Aeq : Nat → Nat → α
+  beq : Nat → α
+
+/-- result of `solve_tableau` / `solve_phase_1`: status, tableau, basis, number of iterations -/
+structure Res (α : Type) where
+  status : Nat
+  T : M α
+  basis : List Nat
+  iters : Nat
+
+/-! ### `_initialize_tableau` (linprog_simplex.py:388-425) -/
+
+/-- entry `(i,j)` of a constraint row `i < L` of the Phase-1 tableau: rows with a
+    negative right-hand side are negated (`*= -1`), the slack of a negated `≤` row
+    gets `-1`, every row gets its own artificial variable -/
+def initEntry (P : LP α) (i j : Nat) : α :=
+  if i < P.m then
+    if j < P.n then (if P.bub i < 0 then - P.Aub i j else P.Aub i j)
+    else if j < P.n + P.m then
+      (if j = P.n + i then (if P.bub i < 0 then -1 else 1) else 0)
+    else if j < P.n + P.m + (P.m + P.k) then (if j = P.n + P.m + i then 1 else 0)
+    else (if P.bub i < 0 then - P.bub i else P.bub i)
+  else
+    if j < P.n then (if P.beq (i - P.m) < 0 then - P.Aeq (i - P.m) j else P.Aeq (i - P.m) j)
+    else if j < P.n + P.m then 0
+    else if j < P.n + P.m + (P.m + P.k) then (if j = P.n + P.m + i then 1 else 0)
+    else (if P.beq (i - P.m) < 0 then - P.beq (i - P.m) else P.beq (i - P.m))
+
+/-- `acc = 0; for i in range(L): acc += f i` -/
+def sumRows (L : Nat) (f : Nat → α) : α := (List.range L).foldl (fun acc i => acc + f i) 0
+
+/-- the `(L+1) × (n+m+L+1)` Phase-1 tableau; the criterion row is the sum of the
+    constraint rows on the non-artificial columns and on the right-hand side -/
+def initTableau (P : LP α) : M α :=
+  let L := P.m + P.k
+  M.tab (L + 1) (P.n + P.m + L + 1) fun i j =>
+    if i < L then initEntry P i j
+    else if j < P.n + P.m ∨ j = P.n + P.m + L then sumRows L (fun i => initEntry P i j)
+    else 0
+
+/-- `basis[i] = n+m+i` -/
+def initBasis (P : LP α) : List Nat := (List.range (P.m + P.k)).map (fun i => P.n + P.m + i)
+
+/-- `b_signs[i] = (b[i] >= 0)` -/
+def bSigns (P : LP α) : List Bool :=
+  (List.range (P.m + P.k)).map fun i =>
+    if i < P.m then decide (0 ≤ P.bub i) else decide (0 ≤ P.beq (i - P.m))
+
+/-! ### `_pivot_col` (linprog_simplex.py:632-649) -/
+
+/-- scan state of `_pivot_col`: best coefficient so far, its column -/
+def pivotColStep (T : M α) (st : α × Option Nat) (j : Nat) : α × Option Nat :=
+  if st.1 < T.get (T.nr - 1) j then (T.get (T.nr - 1) j, some j) else st
+
+/-- largest-coefficient entering rule: the first column with the maximal criterion
+    coefficient among those `> fea_tol`; artificial columns are skipped when `skipAux` -/
+def pivotCol (T : M α) (skipAux : Bool) (feaTol : α) : Option Nat :=
+  let stop := T.nc - 1 - (if skipAux then T.nr - 1 else 0)
+  ((List.range stop).foldl (pivotColStep T) (feaTol, none)).2
+
+/-! ### `solve_tableau` (linprog_simplex.py:525-556) -/
+
+/-- `tableau[:-1, :]` — the view without the criterion row -/
+def dropLast (T : M α) : M α := { T with nr := T.nr - 1 }
+
+/-- the `while num_iter < max_iter` loop; the fuel is `max_iter` -/
+def solveTableau (tol : Tol α) (skipAux : Bool) : Nat → M α → List Nat → Res α
+  | 0, T, b => ⟨1, T, b, 0⟩
+  | fuel + 1, T, b =>
+    match pivotCol T skipAux tol.fea with
+    | none => ⟨0, T, b, 1⟩
+    | some c =>
+      let pr := lexMinRatio (dropLast T) c (T.nc - (T.nr - 1) - 1) tol.piv tol.diff
+      if pr.1 then
+        let r := solveTableau tol skipAux fuel (pivot T c pr.2) (b.set pr.2 c)
+        { r with iters := r.iters + 1 }
+      else ⟨3, T, b, 1⟩
+
+/-! ### `solve_phase_1` (linprog_simplex.py:572-600) -/
+
+/-- first structural/slack column `j < nm` whose entry in row `i` is treated as non-zero -/
+def cleanupCol (T : M α) (tolPiv : α) (nm i : Nat) : Option Nat :=
+  (List.range nm).find? fun j => decide (T.get i j < - tolPiv) || decide (tolPiv < T.get i j)
+
+/-- one row of the artificial-variable clean-up -/
+def cleanupStep (tolPiv : α) (nm : Nat) (r : Res α) (i : Nat) : Res α :=
+  if nm ≤ r.basis.getD i 0 then
+    match cleanupCol r.T tolPiv nm i with
+    | some j => ⟨r.status, pivot r.T j i, r.basis.set i j, r.iters + 1⟩
+    | none => r
+  else r
+
+def solvePhase1 (tol : Tol α) (maxIter : Nat) (T : M α) (b : List Nat) : Res α :=
+  let L := T.nr - 1
+  let nm := T.nc - (L + 1)
+  let r := solveTableau tol false maxIter T b
+  if r.status ≠ 0 then r
+  else if tol.fea < r.T.get (r.T.nr - 1) (r.T.nc - 1) then { r with status := 2 }
+  else (List.range L).foldl (cleanupStep tol.piv nm) r
+
+/-! ### `_set_criterion_row` (linprog_simplex.py:451-463) -/
+
+/-- `multiplier = row[basis[i]]; row[j] -= tableau[i,j] * multiplier` for all `j` -/
+def critStep (T : M α) (b : List Nat) (row : List α) (i : Nat) : List α :=
+  let mult := row.getD (b.getD i 0) 0
+  (List.range T.nc).map fun j => row.getD j 0 - T.get i j * mult
+
+def critRow (c : Nat → α) (n : Nat) (b : List Nat) (T : M α) : List α :=
+  (List.range (T.nr - 1)).foldl (critStep T b)
+    ((List.range T.nc).map fun j => if j < n then c j else 0)
+
+def setCriterionRow (c : Nat → α) (n : Nat) (b : List Nat) (T : M α) : M α :=
+  let row := critRow c n b T
+  M.tab T.nr T.nc fun i j => if i = T.nr - 1 then row.getD j 0 else T.get i j
+
+/-! ### `get_solution` (linprog_simplex.py:683-697) -/
+
+/-- `x[:] = 0; for i in range(L): if basis[i] < n: x[basis[i]] = tableau[i,-1]`
+    (a later row overwrites an earlier one) -/
+def basicValue (T : M α) (b : List Nat) (L j : Nat) : α :=
+  match (List.range L).reverse.find? (fun i => b.getD i 0 == j) with
+  | some i => T.get i (T.nc - 1)
+  | none => 0
+
+def getX (T : M α) (b : List Nat) (n : Nat) : List α :=
+  (List.range n).map (basicValue T b (T.nr - 1))
+
+/-- `lambd[j] = tableau[-1, aux_start+j]`, negated (`*= -1`) when non-zero and `b_signs[j]` -/
+def getLambd (T : M α) (signs : List Bool) : List α :=
+  let L := T.nr - 1
+  (List.range L).map fun j =>
+    let v := T.get L (T.nc - L - 1 + j)
+    if v == 0 then v else if signs.getD j false then - v else v
+
+/-- `fun = tableau[-1,-1] * (-1)` -/
+def getFun (T : M α) : α := - T.get (T.nr - 1) (T.nc - 1)
+
+/-! ### `linprog_simplex` (linprog_simplex.py:259-300) -/
+
+/-! ### certificates read off the final tableaux (not in the code: they are what the
+    theorems `status2_infeasible` / `status3_unbounded` are about, and what the harness
+    verifies exactly against the LP data) -/
+
+/-- Farkas vector from the optimal Phase-1 tableau: with `w_i = 1 + T[last, n+m+i]`
+    (so that criterion row = Σ_i w_i · (initial row i) on the non-artificial columns),
+    `y_i = -σ_i w_i` where `σ_i = -1` iff row `i` was negated.  Certifies infeasibility:
+    `y_ub ≥ 0`, `A_ubᵀ y_ub + A_eqᵀ y_eq ≥ 0`, `b·y < 0`. -/
+def farkas (P : LP α) (T : M α) : List α :=
+  (List.range (P.m + P.k)).map fun i =>
+    let w := 1 + T.get (T.nr - 1) (P.n + P.m + i)
+    let neg := if i < P.m then decide (P.bub i < 0) else decide (P.beq (i - P.m) < 0)
+    if neg then w else - w
+
+/-- direction of unboundedness from a tableau whose entering column `c` has no positive
+    entry: `d_c = 1`, `d_{basis[i]} = -T[i,c]`, `0` elsewhere (first `n` components) -/
+def ray (T : M α) (b : List Nat) (n c : Nat) : List α :=
+  (List.range n).map fun j =>
+    if j = c then 1
+    else match (List.range (T.nr - 1)).reverse.find? (fun i => b.getD i 0 == j) with
+      | some i => - T.get i c
+      | none => 0
+
+structure SimplexResult (α : Type) where
+  x : List α
+  lambd : List α
+  fn : Option α          -- `none` = the initial `-inf` (Phase 1 failed)
+  status : Nat
+  iters : Nat
+  basis : List Nat
+  cert : List α          -- status 2: Farkas vector; status 3 (Phase 2): ray; else empty
+
+def linprogSimplex (P : LP α) (maxIter : Nat) (tol : Tol α) : SimplexResult α :=
+  let r1 := solvePhase1 tol maxIter (initTableau P) (initBasis P)
+  if r1.status ≠ 0 then
+    ⟨[], [], none, r1.status, r1.iters, r1.basis, if r1.status = 2 then farkas P r1.T else []⟩
+  else
+    let T1 := setCriterionRow P.c P.n r1.basis r1.T
+    let r2 := solveTableau tol true (maxIter - r1.iters) T1 r1.basis
+    ⟨getX r2.T r2.basis P.n, getLambd r2.T (bSigns P), some (getFun r2.T), r2.status,
+      r1.iters + r2.iters, r2.basis,
+      if r2.status = 3 then
+        match pivotCol r2.T true tol.fea with
+        | some c => ray r2.T r2.basis P.n c
+        | none => []
+      else []⟩
+
+/-! ### `minmax` (minmax.py:55-109) -/
+
+/-- `A.min()` over an `m × n` array (`m, n ≥ 1`) -/
+def matMin (A : Nat → Nat → α) (m n : Nat) : α :=
+  (List.range m).foldl (fun acc i =>
+    (List.range n).foldl (fun acc j => if A i j < acc then A i j else acc) acc) (A 0 0)
+
+/-- `const = min_ * (-1) + 1` if `min_ <= 0`, else `0` -/
+def mmConst (A : Nat → Nat → α) (m n : Nat) : α :=
+  let mn := matMin A m n
+  if mn ≤ 0 then mn * (-1) + 1 else 0
+
+/-- the `(m+2) × (n+1+m+1)` tableau of the game LP  min v  s.t.  (A+const) y − v·1 + s = 0, 1·y = 1 -/
+def mmTableau (A : Nat → Nat → α) (m n : Nat) : M α :=
+  let cst := mmConst A m n
+  M.tab (m + 2) (n + 1 + m + 1) fun i j =>
+    if i < m then
+      if j < n then A i j + cst
+      else if j = n then -1
+      else if j = n + 1 + i then 1
+      else 0
+    else if i = m then (if j < n ∨ j = n + 1 + m then 1 else 0)
+    else (if j = n then -1 else 0)
+
+/-- first row `i < m` maximising `tableau[i, 0]` -/
+def mmPivRow (T : M α) (m : Nat) : Nat :=
+  ((List.range m).foldl (fun (st : Nat × α) i =>
+    if i = 0 then st else if st.2 < T.get i 0 then (i, T.get i 0) else st) (0, T.get 0 0)).1
+
+structure MinmaxResult (α : Type) where
+  v : α
+  x : List α
+  y : List α
+  status : Nat
+  iters : Nat
+
+def minmax (A : Nat → Nat → α) (m n : Nat) (maxIter : Nat) (tol : Tol α) : MinmaxResult α :=
+  let T0 := mmTableau A m n
+  let pr := mmPivRow T0 m
+  let T2 := pivot (pivot T0 n pr) 0 m
+  let b0 := (((List.range (m + 1)).map fun i => n + 1 + i).set pr n).set m 0
+  let r := solveTableau tol false (maxIter - 2) T2 b0
+  let T := r.T
+  let y := (List.range n).map (basicValue T r.basis (m + 1))
+  let x := (List.range m).map fun j =>
+    let v := T.get (m + 1) (n + 1 + j)
+    if v == 0 then v else v * (-1)
+  ⟨T.get (m + 1) (n + 1 + m) - mmConst A m n, x, y, r.status, r.iters⟩
+
+/-! ### line protocol -/
+
+instance : Zero Float := ⟨0.0⟩
+instance : One Float := ⟨1.0⟩
+
+def fnOfList {β : Type} [Zero β] (l : List β) : Nat → β := fun i => l.getD i 0
+def fnOfMat {β : Type} [Zero β] (l : List (List β)) : Nat → Nat → β :=
+  let a := (l.map List.toArray).toArray
+  fun i j => (a.getD i #[]).getD j 0
+
+/-- scalar kit: how to parse and print at one scalar type -/
+structure Sc (β : Type) where
+  vec : List String → String → Option (List β)
+  mat : List String → String → Option (List (List β))
+  one : String → Option β
+  shw : β → String
+
+def scRat : Sc Rat := ⟨kvRats, kvRatMat, parseRat?, showRat⟩
+def scFloat : Sc Float := ⟨kvFloats, kvFloatMat, parseFloat?, showFloatBits⟩
+
+def rectangular {β : Type} (A : List (List β)) (rows cols : Nat) : Bool :=
+  A.length == rows && A.all (fun r => r.length == cols)
+
+section
+variable {β : Type} [Zero β] [One β] [Add β] [Sub β] [Mul β] [Div β] [Neg β] [LT β] [LE β]
+  [DecidableLT β] [DecidableLE β] [BEq β]
+
+def kvTol (sc : Sc β) (r : List String) : Option (Tol β) :=
+  match (kv r "fea").bind sc.one, (kv r "piv").bind sc.one, (kv r "diff").bind sc.one with
+  | some f, some p, some d => some ⟨f, p, d⟩
+  | _, _, _ => none
+
+def kvTab (sc : Sc β) (r : List String) : Option (M β) :=
+  match sc.mat r "T" with
+  | some rows =>
+    if rows.isEmpty then none
+    else if rectangular rows rows.length (rows.headD []).length then some (M.ofRows rows) else none
+  | none => none
+
+def handleSc (sc : Sc β) (toks : List String) : String :=
+  match toks with
+  | "lp" :: r =>
+    match kvNat r "n", kvNat r "m", kvNat r "k", sc.vec r "c", sc.mat r "Aub", sc.vec r "bub",
+          sc.mat r "Aeq", sc.vec r "beq", kvNat r "maxiter", kvTol sc r with
+    | some n, some m, some k, some c, some Aub, some bub, some Aeq, some beq, some mi, some tol =>
+      if c.length == n && rectangular Aub m n && bub.length == m && rectangular Aeq k n
+          && beq.length == k then
+        let P : LP β := ⟨n, m, k, fnOfList c, fnOfMat Aub, fnOfList bub, fnOfMat Aeq, fnOfList beq⟩
+        let res := linprogSimplex P mi tol
+        s!"st={res.status} it={res.iters} fun={match res.fn with | some f => sc.shw f | none => "-inf"}" ++
+        s!" x={showList sc.shw res.x} lam={showList sc.shw res.lambd} basis={showList toString res.basis} cert={showList sc.shw res.cert}"
+      else "bad-op"
+    | _, _, _, _, _, _, _, _, _, _ => "bad-op"
+  | "init" :: r =>
+    match kvNat r "n", kvNat r "m", kvNat r "k", sc.mat r "Aub", sc.vec r "bub",
+          sc.mat r "Aeq", sc.vec r "beq" with
+    | some n, some m, some k, some Aub, some bub, some Aeq, some beq =>
+      if rectangular Aub m n && bub.length == m && rectangular Aeq k n && beq.length == k then
+        let P : LP β := ⟨n, m, k, fun _ => 0, fnOfMat Aub, fnOfList bub, fnOfMat Aeq, fnOfList beq⟩
+        s!"T={showMat sc.shw (initTableau P).toRows} basis={showList toString (initBasis P)}"
+      else "bad-op"
+    | _, _, _, _, _, _, _ => "bad-op"
+  | "minmax" :: r =>
+    match kvNat r "m", kvNat r "n", sc.mat r "A", kvNat r "maxiter", kvTol sc r with
+    | some m, some n, some A, some mi, some tol =>
+      if m ≥ 1 && n ≥ 1 && rectangular A m n then
+        let res := minmax (fnOfMat A) m n mi tol
+        s!"st={res.status} it={res.iters} v={sc.shw res.v} x={showList sc.shw res.x} y={showList sc.shw res.y}"
+      else "bad-op"
+    | _, _, _, _, _ => "bad-op"
+  | "pivot" :: r =>
+    match kvTab sc r, kvNat r "c", kvNat r "r" with
+    | some T, some c, some rr =>
+      if rr < T.nr && c < T.nc then showMat sc.shw (pivot T c rr).toRows else "bad-op"
+    | _, _, _ => "bad-op"
+  | "lexmin" :: r =>
+    match kvTab sc r, kvNat r "c", kvNat r "ss", (kv r "piv").bind sc.one, (kv r "diff").bind sc.one with
+    | some T, some c, some ss, some tp, some td =>
+      if c < T.nc && ss + T.nr ≤ T.nc then
+        let pr := lexMinRatio T c ss tp td
+        s!"{showBool pr.1} {pr.2}"
+      else "bad-op"
+    | _, _, _, _, _ => "bad-op"
+  | "pivcol" :: r =>
+    match kvTab sc r, kv r "skip", (kv r "fea").bind sc.one with
+    | some T, some sk, some fea =>
+      if (sk == "0" || sk == "1") && T.nr ≤ T.nc then
+        match pivotCol T (sk == "1") fea with
+        | some c => s!"1 {c}"
+        | none => "0 -1"
+      else "bad-op"
+    | _, _, _ => "bad-op"
+  | _ => "bad-op"
+end
+
+def handle (toks : List String) : String :=
+  match toks with
+  | op :: "rat" :: r => handleSc scRat (op :: r)
+  | op :: "float" :: r => handleSc scFloat (op :: r)
+  | _ => "bad-op"
 
 end QE.C04
